@@ -930,7 +930,7 @@ def data_tolerances(S, fmt, Ulen):
     stretch = max([1.0] + [max(1.0, s[:, i].max()) - min(0.0, s[:, i].min()) + 0.002 for i in range(3) if not pbc[i]])
     floor = 2e-9 * np.abs(V).max() * stretch
     F = np.where(pbc, np.abs(np.floor(s)).max(axis=0) + 1.0, 0.0)
-    return dict(d=d, tV=2 * d + floor, to=d + floor, tpos=d * (1 + 2 * F.sum()) + floor * (1 + F.sum()))
+    return dict(d=d, tV=2 * d + floor, to=d + floor, tpos=d * (1 + 2 * F.sum()) + floor * (1 + F.sum()), stretch=stretch)
 
 
 def check_wrapped_cell(loaded, S, T, what):
@@ -951,7 +951,8 @@ def check_wrapped_cell(loaded, S, T, what):
         for c in range(3):
             t = T['tV'][c] * 1.01
             if abs(V[i, c]) <= t:
-                require(abs(Vl[i, c]) <= t * 2 + abs(V[i, c]) * 2,
+                # a component below the printed precision stays one: at most stretched with its vector (non-periodic direction)
+                require(abs(Vl[i, c]) <= t * 2 + abs(V[i, c]) * max(2.0, T.get('stretch', 1.0) + 1.0),
                         lambda: '%s: box vector %d changed direction: %r -> %r' % (what, i, V[i], Vl[i]))
                 continue
             a, b = (Vl[i, c] - t * 2) / V[i, c], (Vl[i, c] + t * 2) / V[i, c]
